@@ -41,6 +41,8 @@ Suffixes == {
   <<Dot, LB, Id(<<97>>), Comma, Id(<<98>>), RB>>, <<Dot, LB, Id(<<97>>), RB>>,
   <<Dot, LBr, Id(<<107>>), Colon, Id(<<97>>), RBr>>,
   <<Dot, LBr, Id(<<97>>), Colon, Id(<<98>>), Comma, Id(<<98>>), Colon, CurT, RBr>>,
+  <<Dot, LB, Id(<<97>>), Flat, Comma, Id(<<98>>), LB, Star, RB, Comma, CurT, Flat, RB>>,   \* projections nested inside a multi-select
+  <<Filt, Id(<<97>>), Flat, RB>>,
   <<PipeT, Id(<<97>>)>>, <<PipeT, LB, IntT(<<48>>), RB>>, <<PipeT, LB, Star, RB>>, <<PipeT, CurT>>,
   <<PipeT, Flat>>, <<PipeT, Star>>,
   <<OrT, Id(<<98>>)>>, <<AndT, Id(<<98>>)>>, <<EqT, Json(<<96,49,96>>)>>, <<NeT, Id(<<97>>)>>,
